@@ -272,6 +272,9 @@ class Session:
         ic, ix = norm_c(ic), norm_ref(ix)
         if any(l.startswith("bad-op") for l in ic + ix):
             return ("malformed", "op file outside the grammar (a driver answered bad-op)")
+        if note_c and note_x and len(ic) == len(ix):
+            return ("tie", "both interfaces die at the same observation %d (not a difference between them): C: %s | C++: %s"
+                    % (len(ic), note_c[:250], note_x[:250]))
         if note_c:
             # where did the C interface stop? the C++ interface's next observation is what it should have produced
             nxt = ix[len(ic)] if len(ic) < len(ix) else "<end>"
